@@ -135,6 +135,10 @@ func exploreScenario(c *fw.Ctx, id string, sc *schedScenario, bound int, maxExec
 
 // selfCheckDeterminism replays one fixed schedule twice and requires identical decisions.
 func selfCheckDeterminism(c *fw.Ctx, id string, sc *schedScenario) bool {
+	// warm-up: process-global lazily built state of the code under test (e.g. a cache of compiled
+	// regular expressions behind a mutex) is filled by the first execution of a scenario; every later
+	// execution issues the same requests and finds it filled
+	runSchedOnce(sc, nil)
 	x1, _, _, o1 := runSchedOnce(sc, nil)
 	x2, _, _, o2 := runSchedOnce(sc, x1.Choices())
 	if fmt.Sprint(x1.Choices()) != fmt.Sprint(x2.Choices()) || x1.Steps != x2.Steps || o1 != o2 || x2.Diverged != "" {
